@@ -1084,10 +1084,15 @@ func (w *vw) applyInstall(n *vwNode, kind string, before []vwLog) (string, error
 		}
 	}
 
-	// ---- C01: a node that becomes writable holds every acknowledged entry
-	if err == nil && recoveryRan && (w.o.oC01 || !w.o.reportKF) {
-		if e := w.checkInstallAgainstAcks(n, a, res, before, after); e != nil {
+	// ---- C01: a node that becomes writable holds every acknowledged entry, and the
+	// recovery replacement of an Install - also one that fails or crashes afterwards -
+	// never removes an acknowledged entry.
+	if recoveryRan && (w.o.oC01 || !w.o.reportKF) {
+		if e := w.checkInstallAgainstAcks(n, a, res, err == nil, before, after); e != nil {
 			return obs, e
+		}
+		if w.dead {
+			return obs, nil
 		}
 	}
 	if err == nil && recoveryRan {
@@ -1127,7 +1132,7 @@ func sameLogs(a, b []vwLog) bool {
 
 // checkInstallAgainstAcks classifies every acknowledged entry that a freshly installed
 // (writable) node does not hold.
-func (w *vw) checkInstallAgainstAcks(n *vwNode, a Authority, res Installed, before, after []vwLog) error {
+func (w *vw) checkInstallAgainstAcks(n *vwNode, a Authority, res Installed, succeeded bool, before, after []vwLog) error {
 	ni := int(n.id) - 1
 	for _, ack := range w.acks {
 		present, replaced := holds(after[ni], ack)
@@ -1135,6 +1140,9 @@ func (w *vw) checkInstallAgainstAcks(n *vwNode, a Authority, res Installed, befo
 			continue
 		}
 		heldBefore, _ := holds(before[ni], ack)
+		if !succeeded && !heldBefore {
+			continue // a failed Install at a non-holder is never a violation
+		}
 		holders := map[ch.NodeID]bool{}
 		inter := 0
 		resp := w.responders()
@@ -1153,6 +1161,11 @@ func (w *vw) checkInstallAgainstAcks(n *vwNode, a Authority, res Installed, befo
 			if replaced {
 				kind = "acked-entry-replaced-by-install"
 			}
+			if !succeeded {
+				// the replacement was applied, then the Install failed (barrier quorum
+				// unavailable) or the process died after the page
+				kind = "acked-entry-truncated-by-failed-install"
+			}
 		}
 		var rel string
 		switch {
@@ -1165,15 +1178,19 @@ func (w *vw) checkInstallAgainstAcks(n *vwNode, a Authority, res Installed, befo
 		default:
 			rel = "holders-intersect-responders-at-quorum"
 		}
-		msg := fmt.Sprintf("Install(%s) at node %d succeeded with LEO %d; acknowledged %s [%d,%d] (authority %s, holders %s) is not in its log afterwards (held before: %v); probe responders (all rounds) %s, |H∩R|=%d, Q=%d",
-			authStr(a.ID), n.id, res.LEO, "c"+strconv.Itoa(ack.cmd), ack.receipt.First, ack.receipt.Last, authStr(ack.receipt.Authority),
+		outcome := fmt.Sprintf("succeeded with LEO %d", res.LEO)
+		if !succeeded {
+			outcome = "applied its recovery replacement and then failed"
+		}
+		msg := fmt.Sprintf("Install(%s) at node %d %s; acknowledged %s [%d,%d] (authority %s, holders %s) is not in its log afterwards (held before: %v); probe responders (all rounds) %s, |H∩R|=%d, Q=%d",
+			authStr(a.ID), n.id, outcome, "c"+strconv.Itoa(ack.cmd), ack.receipt.First, ack.receipt.Last, authStr(ack.receipt.Authority),
 			nodeSet(holders), heldBefore, nodeSet(resp), inter, vwQ)
 		known := rel == "holders-intersect-responders-below-quorum" && kind != "acked-entry-replaced-by-install"
 		if !known && !w.o.oC01 {
 			continue // judged by the C01 entry only
 		}
 		if known {
-			if kind == "acked-entry-truncated-by-install" {
+			if kind != "install-writable-without-acked-entry" {
 				w.st.kfHits.Add(1)
 			} else {
 				w.st.kfSiblingHits.Add(1)
@@ -1191,7 +1208,7 @@ func (w *vw) checkInstallAgainstAcks(n *vwNode, a Authority, res Installed, befo
 		}
 		return mc.Violatef("C01:"+kind+":"+rel, "%s", msg)
 	}
-	if len(w.acks) > 0 && w.o.oC01 {
+	if len(w.acks) > 0 && w.o.oC01 && succeeded {
 		maxLast := uint64(0)
 		for _, ack := range w.acks {
 			if ack.receipt.Last > maxLast {
